@@ -80,12 +80,31 @@ func outsOf(kind int) []int {
 	return nil
 }
 
-func nsName(c int) string { return [...]string{"", "b"}[c] }
+// Namespaces and names contain "/" in such a way that two different (namespace, name) pairs give
+// the same "<namespace>/<name>" string: ("t", "a/n") and ("t/a", "n"). The table must key its name
+// index by the pair (the model does); the codes on the wire are unchanged.
+func nsName(c int) string { return [...]string{"t", "t/a"}[c] }
+
+var symNames = []string{"", "a/n", "n", "m", "a/m", "k"}
+
 func symName(c int) string {
-	if c == 0 {
-		return ""
+	if c >= 0 && c < len(symNames) {
+		return symNames[c]
 	}
 	return "n" + strconv.Itoa(c)
+}
+
+func symNameCode(s string) int {
+	for i, n := range symNames {
+		if n == s {
+			return i
+		}
+	}
+	if len(s) > 1 {
+		k, _ := strconv.Atoi(s[1:])
+		return k
+	}
+	return 0
 }
 func idOf(c int) uuid.UUID {
 	if c == 0 {
@@ -213,17 +232,26 @@ type live struct {
 }
 
 type world struct {
-	tbl     *symbol.Table
-	mu      sync.Mutex
-	log     []ev
-	inReg   map[*port.InPort]string // every in-port ever created -> "id.port" or "dead"
-	inLive  map[*port.InPort]*symbol.Symbol
-	cur     map[int]*live // harness's own record: what a correct table contains
-	idKey   map[string]int
-	hookBad []string // hook called with a symbol that is not the table's current one
-	reuse   bool     // re-insert the same *Symbol object for the same definition
-	pool    map[string]*symbol.Symbol
-	reused  int
+	tbl    *symbol.Table
+	mu     sync.Mutex
+	log    []ev
+	inReg  map[*port.InPort]string // every in-port ever created -> "id.port" or "dead"
+	inLive map[*port.InPort]*symbol.Symbol
+	cur    map[int]*live // harness's own record: what a correct table contains
+	idKey  map[string]int
+	reuse  bool // re-insert the same *Symbol object for the same definition
+	pool   map[string]*symbol.Symbol
+	reused int
+
+	// hooks: the table is built from `opts` TableOptions (hooks per option); every hook has a small
+	// id and records its calls; wantL / wantU are the hooks the table must hold, in registration order
+	opts    []int
+	lhooks  map[int]symbol.LoadHook
+	uhooks  map[int]symbol.UnloadHook
+	wantL   []int
+	wantU   []int
+	nextH   int
+	hookBad []string
 }
 
 // errs: the error a failing responder k answers with. Built once (responders answer from their
@@ -249,17 +277,54 @@ func newWorld() *world {
 		v, _ := types.Marshal(idOf(k))
 		w.idKey[fmt.Sprint(types.InterfaceOf(v))] = k
 	}
-	w.tbl = symbol.NewTable(symbol.TableOption{
-		LoadHooks: []symbol.LoadHook{symbol.LoadFunc(func(sb *symbol.Symbol) error {
-			w.hook('L', sb)
-			return nil
-		})},
-		UnloadHooks: []symbol.UnloadHook{symbol.UnloadFunc(func(sb *symbol.Symbol) error {
-			w.hook('U', sb)
-			return nil
-		})},
-	})
+	w.lhooks, w.uhooks = map[int]symbol.LoadHook{}, map[int]symbol.UnloadHook{}
 	return w
+}
+
+func (w *world) newLoadHook() int {
+	w.nextH++
+	k := w.nextH
+	w.lhooks[k] = symbol.LoadFunc(func(sb *symbol.Symbol) error {
+		w.rawHook('l', sb, k)
+		return nil
+	})
+	return k
+}
+
+func (w *world) newUnloadHook() int {
+	w.nextH++
+	k := w.nextH
+	w.uhooks[k] = symbol.UnloadFunc(func(sb *symbol.Symbol) error {
+		w.rawHook('u', sb, k)
+		return nil
+	})
+	return k
+}
+
+// table builds the table on first use: from one TableOption with one load and one unload hook, or –
+// `mode opts n1 n2 …` – from several options carrying n_i load and n_i unload hooks each.
+func (w *world) table() *symbol.Table {
+	if w.tbl != nil {
+		return w.tbl
+	}
+	opts := w.opts
+	if len(opts) == 0 {
+		opts = []int{1}
+	}
+	var tos []symbol.TableOption
+	for _, n := range opts {
+		var to symbol.TableOption
+		for i := 0; i < n; i++ {
+			l, u := w.newLoadHook(), w.newUnloadHook()
+			to.LoadHooks = append(to.LoadHooks, w.lhooks[l])
+			to.UnloadHooks = append(to.UnloadHooks, w.uhooks[u])
+			w.wantL = append(w.wantL, l)
+			w.wantU = append(w.wantU, u)
+		}
+		tos = append(tos, to)
+	}
+	w.tbl = symbol.NewTable(tos...)
+	return w.tbl
 }
 
 func (w *world) code(id uuid.UUID) int {
@@ -271,11 +336,150 @@ func (w *world) code(id uuid.UUID) int {
 	return -1
 }
 
-func (w *world) hook(k byte, sb *symbol.Symbol) {
+// rawHook records one call of hook h ('l' load, 'u' unload); collapseHooks turns the calls of one
+// notification into a single 'L' / 'U' event when they are the expected hooks in the expected order.
+func (w *world) rawHook(k byte, sb *symbol.Symbol, h int) {
 	c := w.code(sb.ID())
 	w.mu.Lock()
-	w.log = append(w.log, ev{k: k, subj: c})
+	w.log = append(w.log, ev{k: k, subj: c, tgt: h})
 	w.mu.Unlock()
+}
+
+func intsEq(a, b []int) bool {
+	if len(a) != len(b) {
+		return false
+	}
+	for i := range a {
+		if a[i] != b[i] {
+			return false
+		}
+	}
+	return true
+}
+
+// collapseHooks rewrites w.log[start:]: a maximal run of 'l' calls for one symbol becomes 'L' when
+// the hooks called are exactly wantL in registration order; a run of 'u' calls becomes 'U' when they
+// are wantU in REVERSE registration order (UnloadHooks run last-registered first). Anything else is
+// left as it is (and reported): a notification with a missing, extra or misplaced hook.
+func (w *world) collapseHooks(start int) {
+	w.mu.Lock()
+	defer w.mu.Unlock()
+	old := w.log[start:]
+	var out []ev
+	for i := 0; i < len(old); {
+		e := old[i]
+		if e.k != 'l' && e.k != 'u' {
+			out = append(out, e)
+			i++
+			continue
+		}
+		j := i
+		var hs []int
+		for j < len(old) && old[j].k == e.k && old[j].subj == e.subj {
+			hs = append(hs, old[j].tgt)
+			j++
+		}
+		want := w.wantL
+		big := byte('L')
+		if e.k == 'u' {
+			big = 'U'
+			want = make([]int, len(w.wantU))
+			for x, h := range w.wantU {
+				want[len(w.wantU)-1-x] = h
+			}
+		}
+		// one notification may be followed directly by another one of the same symbol only across a
+		// close/flow, so a run is one notification; split it if it is a whole multiple of `want`
+		if len(want) > 0 && len(hs)%len(want) == 0 {
+			ok := true
+			for x := range hs {
+				if hs[x] != want[x%len(want)] {
+					ok = false
+				}
+			}
+			if ok {
+				for x := 0; x < len(hs)/len(want); x++ {
+					out = append(out, ev{k: big, subj: e.subj})
+				}
+				i = j
+				continue
+			}
+		}
+		w.hookBad = append(w.hookBad, fmt.Sprintf("symbol %d: hooks called %v, registered %v (%c)", e.subj, hs, want, big))
+		out = append(out, old[i:j]...)
+		i = j
+	}
+	w.log = append(w.log[:start], out...)
+}
+
+// hookOp: `hook addl k | rml k | addu k | rmu k` – Add/Remove a load / unload hook on the live table
+// (k names a hook object: a known one, or a fresh one). Answers what the table returned; the
+// expected answer (true iff the hook was absent / present) is checked by the oracle.
+func (w *world) hookOp(f []string) string {
+	if len(f) != 2 {
+		return "bad-op"
+	}
+	k, err := strconv.Atoi(f[1])
+	if err != nil {
+		return "bad-op"
+	}
+	t := w.table()
+	idx := func(xs []int) int {
+		for i, x := range xs {
+			if x == k {
+				return i
+			}
+		}
+		return -1
+	}
+	var got, want bool
+	switch f[0] {
+	case "addl":
+		if _, ok := w.lhooks[k]; !ok {
+			h := symbol.LoadFunc(func(sb *symbol.Symbol) error { w.rawHook('l', sb, k); return nil })
+			w.lhooks[k] = h
+		}
+		want = idx(w.wantL) < 0
+		got = t.AddLoadHook(w.lhooks[k])
+		if want {
+			w.wantL = append(w.wantL, k)
+		}
+	case "rml":
+		if _, ok := w.lhooks[k]; !ok {
+			w.lhooks[k] = symbol.LoadFunc(func(sb *symbol.Symbol) error { w.rawHook('l', sb, k); return nil })
+		}
+		i := idx(w.wantL)
+		want = i >= 0
+		got = t.RemoveLoadHook(w.lhooks[k])
+		if want {
+			w.wantL = append(append([]int{}, w.wantL[:i]...), w.wantL[i+1:]...)
+		}
+	case "addu":
+		if _, ok := w.uhooks[k]; !ok {
+			w.uhooks[k] = symbol.UnloadFunc(func(sb *symbol.Symbol) error { w.rawHook('u', sb, k); return nil })
+		}
+		want = idx(w.wantU) < 0
+		got = t.AddUnloadHook(w.uhooks[k])
+		if want {
+			w.wantU = append(w.wantU, k)
+		}
+	case "rmu":
+		if _, ok := w.uhooks[k]; !ok {
+			w.uhooks[k] = symbol.UnloadFunc(func(sb *symbol.Symbol) error { w.rawHook('u', sb, k); return nil })
+		}
+		i := idx(w.wantU)
+		want = i >= 0
+		got = t.RemoveUnloadHook(w.uhooks[k])
+		if want {
+			w.wantU = append(append([]int{}, w.wantU[:i]...), w.wantU[i+1:]...)
+		}
+	default:
+		return "bad-op"
+	}
+	if got != want {
+		w.hookBad = append(w.hookBad, fmt.Sprintf("hook %s %d answered %v, expected %v", f[0], k, got, want))
+	}
+	return "ok"
 }
 
 // obtain returns the symbol object for a definition: a fresh one, or – in a case that re-uses
@@ -390,10 +594,10 @@ func (w *world) apply(line string) (ret string, evs []ev, blocked bool) {
 			}
 			dNew = d
 			sbNew = w.obtain(d)
-			ret = showErr(w.tbl.Insert(sbNew))
+			ret = showErr(w.table().Insert(sbNew))
 		case "free":
 			k, _ := strconv.Atoi(f[1])
-			b, err := w.tbl.Free(idOf(k))
+			b, err := w.table().Free(idOf(k))
 			ret = showErr(err)
 			if err == nil {
 				if b {
@@ -403,7 +607,9 @@ func (w *world) apply(line string) (ret string, evs []ev, blocked bool) {
 				}
 			}
 		case "close":
-			ret = showErr(w.tbl.Close())
+			ret = showErr(w.table().Close())
+		case "hook":
+			ret = w.hookOp(f[1:])
 		default:
 			ret = "bad-op"
 		}
@@ -416,6 +622,7 @@ func (w *world) apply(line string) (ret string, evs []ev, blocked bool) {
 	}
 	// let responder goroutines that already answered finish appending (they log before answering,
 	// and exec waits for the answer, so the log is complete here)
+	w.collapseHooks(start)
 	w.mu.Lock()
 	evs = append(evs, w.log[start:]...)
 	w.mu.Unlock()
@@ -452,7 +659,7 @@ func (w *world) apply(line string) (ret string, evs []ev, blocked bool) {
 		}
 	case "close":
 		for k, l := range w.cur {
-			if isOK || closed[k] || (l.def.Kind == kNil && w.tbl.Lookup(idOf(k)) == nil) {
+			if isOK || closed[k] || (l.def.Kind == kNil && w.table().Lookup(idOf(k)) == nil) {
 				delete(w.cur, k)
 			}
 		}
@@ -486,7 +693,7 @@ func numSortJoin(xs []string) string {
 
 func (w *world) keys() []int {
 	var ks []int
-	for _, id := range w.tbl.Keys() {
+	for _, id := range w.table().Keys() {
 		ks = append(ks, w.code(id))
 	}
 	sort.Ints(ks)
@@ -496,8 +703,8 @@ func (w *world) keys() []int {
 // links lists every link of every out-port the table has touched on every live symbol.
 func (w *world) links() []string {
 	var out []string
-	for _, id := range w.tbl.Keys() {
-		sb := w.tbl.Lookup(id)
+	for _, id := range w.table().Keys() {
+		sb := w.table().Lookup(id)
 		if sb == nil {
 			continue
 		}
@@ -506,7 +713,7 @@ func (w *world) links() []string {
 				dst, ok := w.inReg[in]
 				if !ok {
 					dst = "0.0"
-				} else if owner := w.inLive[in]; w.tbl.Lookup(owner.ID()) != owner {
+				} else if owner := w.inLive[in]; w.table().Lookup(owner.ID()) != owner {
 					dst = "999." + dst // a link into a removed / replaced symbol's port
 				}
 				out = append(out, fmt.Sprintf("%d.%d.%s", w.code(id), portCode[name], dst))
@@ -518,13 +725,10 @@ func (w *world) links() []string {
 
 func (w *world) refs() []string {
 	var out []string
-	for t, m := range w.tbl.VerifReferences() {
+	for t, m := range w.table().VerifReferences() {
 		for i, l := range m {
 			for _, e := range l {
-				nm := 0
-				if e.Name != "" {
-					nm, _ = strconv.Atoi(e.Name[1:])
-				}
+				nm := symNameCode(e.Name)
 				out = append(out, fmt.Sprintf("%d.%d.%d.%d.%d", w.code(t), portCode[i], w.code(e.ID), portCode[e.Port], nm))
 			}
 		}
